@@ -120,6 +120,7 @@ _A_GROUPS = {
         ("lin3/p3", ("linear", 3), (3,), (PB1, PB2), True, 3, 128, False),
         ("lin4/p3", ("linear4", 4), (3,), (PB1, PB2), True, 1, 256, False),
         ("lin3/p4", ("linear-full", 3), (4,), (PB1, PB2), False, 1, 128, False),
+        ("lin3/p4merges", ("linear-full", 3), (4,), (PB1, PB2), True, 0, 192, False),
         ("fork/p3", ("fork", 4), (1, 2, 3), (PB1, PB2), False, 1, 192, False),
     ],
 }
